@@ -252,6 +252,17 @@ func racGlobals() uint64 {
 	mix(uint64(len(BaseContext.Rounding)))
 	return h
 }
+func racExtends(r, b interface{}) bool {
+	rv, bv := reflect.ValueOf(r), reflect.ValueOf(b)
+	if rv.Kind() != reflect.Slice || bv.Kind() != reflect.Slice || bv.Cap() == 0 || rv.Cap() == 0 {
+		return true
+	}
+	rp, bp, sz := rv.Pointer(), bv.Pointer(), bv.Type().Elem().Size()
+	if rp == bp {
+		return rv.Cap() == bv.Cap() && bv.Len() <= rv.Len()
+	}
+	return rp < bp || rp >= bp+uintptr(bv.Cap())*sz // not somewhere inside b's array
+}
 func racNegZero(p *big.Int) bool {
 	return p != nil && len(p.Bits()) == 0 && p.Cmp(new(big.Int)) != 0
 }
